@@ -146,6 +146,20 @@ func verifyFunction(p *program, fn *ssa.Function, fc *funcContract, safetyOnly b
 			}
 			ac.seen = false
 		}
+		for _, ai := range fc.atifs {
+			if !ai.seen {
+				g0 := &state{heap: map[string]string{}, guard: "true"}
+				x.oblige(g0, "branch", mangle(ai.cond)+"."+ai.cl.tag, "false", pos, "the branch this clause speaks about (`"+ai.cond+"`) does not exist (any more): "+ai.cl.text, false)
+			}
+			ai.seen = false
+		}
+		for _, lc := range fc.loopCalls {
+			if !lc.seen {
+				g0 := &state{heap: map[string]string{}, guard: "true"}
+				x.oblige(g0, "loop-calls", fmt.Sprintf("loop%d.%s.%s", lc.loop, mangle(lc.call), lc.tag), "false", pos, "the loop this clause speaks about has no back edge (any more)", false)
+			}
+			lc.seen = false
+		}
 		for _, as := range fc.atstores {
 			if !as.seen {
 				g0 := &state{heap: map[string]string{}, guard: "true"}
